@@ -59,3 +59,8 @@ def akai_entry_namesake(what, case, detail):
     return isinstance(case, dict) and case.get("namesake") is True and what in (
         "every other item of the directory is still listed under its original name",
         "every other item's audio is still exported unchanged")
+
+
+def akai_unencodable_tuning(what, case, detail):
+    """D16: root key + tuning offset below MIDI note 0 cannot be written to the smpl chunk."""
+    return what == "export finishes without exception" and isinstance(case, dict) and case.get("unencodable_tuning") is True
